@@ -63,11 +63,15 @@ def msg_of(o):
         sql, types = stmt_sql(o["st"])
         return {"t": "P", "name": name_sql(o["n"]), "sql": sql, "types": types}
     if k == "Bind":
-        return {"t": "B", "portal": "", "name": name_sql(o["n"]), "fmts": [], "params": [], "rfmts": []}
+        return {"t": "B", "portal": name_sql(o.get("p", 0)), "name": name_sql(o["n"]), "fmts": [], "params": [], "rfmts": []}
     if k == "Describe":
         return {"t": "D", "kind": "S", "name": name_sql(o["n"])}
     if k == "Execute":
-        return {"t": "E", "portal": "", "max": 0}
+        return {"t": "E", "portal": name_sql(o.get("p", 0)), "max": 0}
+    if k == "DescribeP":
+        return {"t": "D", "kind": "P", "name": name_sql(o.get("p", 0))}
+    if k == "CloseP":
+        return {"t": "C", "kind": "P", "name": name_sql(o.get("p", 0))}
     if k == "Close":
         return {"t": "C", "kind": "S", "name": name_sql(o["n"])}
     raise ValueError(k)
@@ -136,6 +140,8 @@ def replies_of(frames):
             out.append(["RDescr", types[0] if types else 99])
             if i + 1 < len(frames) and frames[i + 1][0] in ("n", "T"):
                 i += 1
+        elif t in ("n", "T"):
+            out.append("RDescrP")                       # Describe('P'): NoData / RowDescription on its own
         elif t == "D":
             # DataRow: columns (backend, conn, statement text, ...)
             (nc,) = struct.unpack(">h", body[:2])
@@ -175,14 +181,16 @@ def observe(prog, res):
         if e.get("ev") == "sent" and who.startswith("c"):
             c = int(who[1:])
             execs = []
+            ptab = {}                                   # portals of this batch: portal name -> (sql, types) bound
             for m in e["msgs"]:
                 if m["t"] == "P":
                     cur_parse[(c, m["name"])] = (m["sql"], m["types"])
                 elif m["t"] == "B":
-                    last_bind[c] = cur_parse.get((c, m["name"]))
+                    ptab[m["portal"]] = cur_parse.get((c, m["name"]))
+                elif m["t"] == "C" and m.get("kind") == "P":
+                    ptab.pop(m["name"], None)
                 elif m["t"] == "E":
-                    execs.append(last_bind.get(c))
-            last_bind.pop(c, None)
+                    execs.append(ptab.get(m["portal"]))
             out.setdefault("_execs", {})[c] = execs
         if e.get("ev") == "recv" and who.startswith("c") and e.get("label") == "probe":
             c = int(who[1:])
@@ -212,14 +220,16 @@ def observe(prog, res):
             if t == "P":
                 m = ["BParse", d["name"], st_of_sql(d["sql"]), d["types"]]
             elif t == "B":
-                m = ["BBind", d["name"]]
-                # monitor on the backend side: the statement the backend will run for this Bind
+                m = ["BBind", d["name"], d["portal"]]
             elif t == "D":
-                m = ["BDesc", d["name"]]
+                m = ["BDesc", d["name"]] if d.get("kind") == "S" else ["BDescP", d["name"]]
             elif t == "E":
-                m = "BExec"
+                m = ["BExec", d["portal"]]
             elif t == "C":
-                m = ["BClose", d["name"]] if d["name"] else "BCloseUnnamed"
+                if d.get("kind") == "P":
+                    m = ["BCloseP", d["name"]]
+                else:
+                    m = ["BClose", d["name"]] if d["name"] else "BCloseUnnamed"
             elif t == "S":
                 m = "BSync"
             elif t == "Q":
@@ -246,6 +256,10 @@ def model_view(prog, pred):
         for m in b["received"]:
             if isinstance(m, list) and m[0] == "BParse":
                 ms.append(["BParse", "PGCAT_%d" % m[1], m[2], stmt_sql(m[2])[1]])
+            elif isinstance(m, list) and m[0] == "BBind":
+                ms.append(["BBind", "PGCAT_%d" % m[1], name_sql(m[2])])
+            elif isinstance(m, list) and m[0] in ("BExec", "BDescP", "BCloseP"):
+                ms.append([m[0], name_sql(m[1])])
             elif isinstance(m, list):
                 ms.append([m[0], "PGCAT_%d" % m[1]])
             else:
@@ -263,7 +277,7 @@ def normalise_obs(view):
     for c, lst in view["clients"].items():
         acc = []
         for o in lst:
-            rs = [tuple(r) if isinstance(r, list) else r for r in o["replies"]]
+            rs = ["RDescrP" if (isinstance(r, list) and r[0] == "RDescrP") else (tuple(r) if isinstance(r, list) else r) for r in o["replies"]]
             if o["kind"] == "Killed" and not rs and acc and acc[-1][0] == "Replies":
                 acc[-1] = ("Killed", acc[-1][1])
             elif o["kind"] == "Killed" and acc and acc[-1][0] == "Killed":
